@@ -40,7 +40,7 @@ CMP_OPS = ["<", "<=", ">", ">=", "==", "!="]
 STRUCT_PATHS = ["S", "m::S", "E::V", "crate::a::B", "S::<u8>", "r#struct::S", "::std::ops::Range", "Größe"]
 ENUM_PATHS = ["Some", "Ok", "Err", "E::T", "a::b::C", "Option::<i32>::Some", "::std::option::Option::Some", "r#enum::V"]
 UNIT_PATHS = ["None", "E::W", "Status::Active", "Option::<u8>::None", "r#mod::UNIT", "Größe::Klein", "i32::MAX", "r#type::r#match"]
-FIELDS = ["age", "name", "items", "inner", "re", "actual", "x", "r#type", "größe", "__report", "a_rather_long_field_name_to_stress_widths"]
+FIELDS = ["age", "name", "items", "inner", "re", "actual", "x", "r#type", "größe", "__report", "a_rather_long_field_name_to_stress_widths", "userName", "_hidden", "a__b", "X"]
 KEYS = ["\"a\"", "\"key two\"", "k", "1", "mk(2)", "&id", "r#type", "(1, 2)", "format!(\"k{}\", 1)", "-1", "'c'", "b\"k\"", "K::<u8>::new()"]
 VALUES = ["v", "self.x", "mk(1).y", "&v", "*v", "resp.data[0]", "(a, b)", "r#type", "vec![1, 2]", "mk::<u8>()", "{ v }", "größe", "f(|cl_q| cl_q + 1)", "-v", "v as u8",
           "S { a: 1 }", "[1, 2, 3]", "&mut w"]
